@@ -12,6 +12,8 @@ for p in sorted(glob.glob("/verif/seeded/*/meta.json")):
         else:
             det.append("%s: not seen (exit %d)" % (r["check"], r["exit"]))
     note = m.get("strengthened", "")
+    if m.get("obsolete"):
+        det, note = ["(obsolete)"], m["obsolete"]
     rows.append("| %s | %s | %s | %s |" % (m["name"], m["needs_to_manifest"].replace("|", "\\|"), "; ".join(det) or "not run", note))
 table = "| seeded change | needs | quick check of its property (seed 0): failing clauses | what was strengthened to catch it |\n|---|---|---|---|\n" + "\n".join(rows)
 p = "/verif/DESIGN.md"
